@@ -120,3 +120,25 @@ package builder
 //@     invariant fresh: base(newBuilders) == 0 || fresh(newBuilders)
 //@     invariant unchanged: forall i: int :: 0 <= i && i < len(builders) ==> builders[i] == old(builders[i])
 //@     invariant dups: duplicatesOf(selector, schemas, duplicateName, excludeOptions, builders, $i + 1, newBuilders) witness src(k) := ite($i >= 0 && k == len(newBuilders) - 1 && apply(selector, schemas, builders[$i]), $i, skolem("src", "last", k)) witness dk := ite(i == $i, len(newBuilders) - 1, skolem("dk", "last", i))
+//
+// initialize / promote_options_to_constructor / add_option: builders that are not selected are left as
+// they were; a selected builder keeps its name, package, object, properties and factories - initialize only
+// adds constructor assignments, promote only adds constructor arguments and assignments, add_option only
+// appends an option - and the list of builders itself comes back (no builder is added or removed).
+//@ spec builderCore(n, o) = n.Name == o.Name && n.Package == o.Package && n.For == o.For && n.Properties == o.Properties && n.Factories == o.Factories
+//@ func Initialize$1
+//@   property C17
+//@   requires selector != nil
+//@   modifies builders[*], spare-capacity
+//@   ensures  same: result.1 == nil ==> result.0 == builders
+//@   ensures  others: forall i: int :: 0 <= i && i < len(builders) && !old(apply(selector, schemas, builders[i])) ==> builders[i] == old(builders[i])
+//@   ensures  selected: forall i: int :: 0 <= i && i < len(builders) && old(apply(selector, schemas, builders[i])) ==> builderCore(builders[i], old(builders[i])) && builders[i].Options == old(builders[i].Options) && builders[i].Constructor.Args == old(builders[i].Constructor.Args) && len(builders[i].Constructor.Assignments) >= old(len(builders[i].Constructor.Assignments))
+//@   loop 0:
+//@     invariant doneothers: forall i: int :: 0 <= i && i <= $i && !old(apply(selector, schemas, builders[i])) ==> builders[i] == old(builders[i])
+//@     invariant done: forall i: int :: 0 <= i && i <= $i && old(apply(selector, schemas, builders[i])) ==> builderCore(builders[i], old(builders[i])) && builders[i].Options == old(builders[i].Options) && builders[i].Constructor.Args == old(builders[i].Constructor.Args) && len(builders[i].Constructor.Assignments) >= old(len(builders[i].Constructor.Assignments))
+//@     invariant todo: forall i: int :: $i < i && i < len(builders) ==> builders[i] == old(builders[i])
+//@   loop 1:
+//@     invariant doneothers: forall k: int :: 0 <= k && k < i && !old(apply(selector, schemas, builders[k])) ==> builders[k] == old(builders[k])
+//@     invariant done: forall k: int :: 0 <= k && k < i && old(apply(selector, schemas, builders[k])) ==> builderCore(builders[k], old(builders[k])) && builders[k].Options == old(builders[k].Options) && builders[k].Constructor.Args == old(builders[k].Constructor.Args) && len(builders[k].Constructor.Assignments) >= old(len(builders[k].Constructor.Assignments))
+//@     invariant todo: forall k: int :: i < k && k < len(builders) ==> builders[k] == old(builders[k])
+//@     invariant current: builderCore(builders[i], old(builders[i])) && builders[i].Options == old(builders[i].Options) && builders[i].Constructor.Args == old(builders[i].Constructor.Args) && len(builders[i].Constructor.Assignments) >= old(len(builders[i].Constructor.Assignments))
